@@ -194,6 +194,7 @@ type Dev struct {
 	Holders     map[Pair]int
 	everMany    map[Pair]bool
 	ActHeld     map[string]bool
+	actCnt      map[string]int // keys down per action
 	Learning    bool
 	axes        map[axisKey]*axisState
 	Recv        *Receiver
@@ -555,11 +556,20 @@ func (m *Dev) noteRelease(hk heldKey, got []Msg) *Violation {
 }
 
 func (m *Dev) actionKey(a string, press bool, got []Msg) *Violation {
+	if m.actCnt == nil {
+		m.actCnt = map[string]int{}
+	}
 	if !press {
-		if a == "cc_learning" {
-			m.Learning = false
+		// an action may have two keys: it is held as long as one of them is down
+		if m.actCnt[a] > 0 {
+			m.actCnt[a]--
 		}
-		delete(m.ActHeld, a)
+		if m.actCnt[a] == 0 {
+			if a == "cc_learning" {
+				m.Learning = false
+			}
+			delete(m.ActHeld, a)
+		}
 		if len(got) != 0 {
 			return viol("action_release_emits", fmt.Sprintf("release of action %s emitted %s", a, fmtMsgs(got)), "C02")
 		}
@@ -567,6 +577,7 @@ func (m *Dev) actionKey(a string, press bool, got []Msg) *Violation {
 	}
 	partner, hasPartner := pairOf(a)
 	m.ActHeld[a] = true
+	m.actCnt[a]++
 	if hasPartner && m.ActHeld[partner] {
 		m.probe("pair_reset")
 		switch a {
